@@ -18,6 +18,7 @@
   direct-container version used here.
 -/
 import TdVerif.Lemmas.C05Inv3
+import TdVerif.Lemmas.C05Shallow
 import TdVerif.Gen.LockTable
 
 namespace TdVerif.Props.C05
@@ -301,6 +302,7 @@ theorem inv_stepLive (s : State) (hinv : Inv s.heap) (e : Ev) (hok : EvOk e)
         simp only [Bool.and_eq_true, decide_eq_true_eq] at hc
         exact inv_lockEv hinv hc.2
       · exact hinv
+  | unlockShallow i => exact inv_unlockShallowEv hinv (ht i rfl).2
 
 /-- **`LockClosed` (with well-formedness) is an invariant of the whole event system**: `lock_`, `unlock_` (accepted
 or refused), context managers, constructors / unpickling, lazy stacks over existing members, `share_memory_`,
@@ -571,6 +573,18 @@ theorem params_locked_content_counterexample :
       (unlockEv h 0).2 = .ok ∧ isLocked (unlockEv h 0).1 1 = true ∧ isLocked (unlockEv h 0).1 0 = false ∧
       (unlockEv (lockEv s.heap 1).1 0).2 = .errLock := by
   decide
+
+/-- **`TensorDictParams(lock=True).unlock_()` is shallow and safe**: the invariant is kept whether the call is accepted or refused
+(`closed_invariant` covers the event `unlockShallow`); when it is accepted only the wrapper changes — it reports unlocked and
+forgets its lock parents, while its content and everything below keep their flags and lock parents (the content stays
+locked) — and it is refused (lock error) whenever a live locked tensordict lists the wrapper among its lock parents. -/
+theorem shallow_unlock_frame (h : Heap) (hinv : Inv h) (i : Nat) (hi : i < h.size) :
+    Inv (unlockShallowEv h i).1 ∧
+    ((unlockShallowEv h i).2 = .ok →
+      flagged (unlockShallowEv h i).1 i = false ∧ ∀ m, m ≠ i → (unlockShallowEv h i).1.node m = h.node m) := by
+  refine ⟨inv_unlockShallowEv hinv hi, fun hok => ?_⟩
+  rw [unlockShallowEv_ok_frame h i hok]
+  refine ⟨by unfold flagged; rw [upd_node_self]; rfl, fun m hm => upd_node_ne _ _ _ _ hm⟩
 
 /-- **views have no lock of their own**: `lock_()` / `unlock_()` of a `_SubTensorDict` never change any tensordict — they return
 iff they would be no-ops and raise otherwise — and a view reports the lock of its source; the legacy lazy views
